@@ -6,22 +6,23 @@
 EXTENDS Naturals, Sequences, SequencesExt, FiniteSets, Json, IOUtils, TLC
 
 ReqDom == [
-  method |-> {"GET", "POST", "PUT", "DELETE", "HEAD", "OPTIONS", "PATCH"},
-  path   |-> {"plain", "pct2F", "pct20", "utf8", "dslash", "dots", "long", "semicolon-path"},
-  query  |-> {"none", "empty", "simple", "repeated", "escaped", "plus", "valueless"},
-  host   |-> {"plain", "withport", "ip"},
+  method |-> {"GET", "POST", "PUT", "DELETE", "HEAD", "OPTIONS", "PATCH", "PROPFIND", "REPORT"},
+  path   |-> {"plain", "pct2F", "pct20", "utf8", "dslash", "dots", "long", "semicolon-path", "trailing-slash", "pct-lowerhex", "colon-at"},
+  query  |-> {"none", "empty", "simple", "repeated", "escaped", "plus", "valueless", "qmark-inside", "at-colon-slash"},
+  host   |-> {"plain", "withport", "ip", "ipv6", "uppercase"},
   h1     |-> {"none", "custom", "custom2", "custom3", "emptyval", "longval", "cookie", "cookie2", "authorization",
               "hop-keep-alive", "hop-proxy-authorization", "hop-te", "hop-upgrade", "hop-proxy-authenticate", "hop-connection",
-              "mixedcase", "accept-encoding", "user-agent", "accept", "content-type", "range"},
+              "mixedcase", "accept-encoding", "user-agent", "accept", "content-type", "range", "many", "forwarded"},
   h2     |-> {"none", "custom", "custom2", "cookie", "hop-te", "hop-keep-alive", "if-none-match", "origin"},
   body   |-> {"none", "len0", "len1", "len-small", "len-4095", "len-4096", "len-4097", "len-32768", "len-32769", "len-100k",
               "chunked-small", "chunked-multi", "chunked-1byte-first", "big"} ]
 
 RespDom == [
-  status  |-> {200, 201, 204, 206, 301, 304, 400, 404, 500, 502, 503, 599},
+  status  |-> {200, 201, 202, 204, 206, 207, 301, 302, 303, 304, 307, 308, 400, 401, 403, 404, 405, 409, 410, 418, 429, 451, 500, 501, 502, 503, 504, 599},
   method  |-> {"GET", "HEAD", "POST"},
   h1      |-> {"none", "custom", "custom2", "setcookie2", "setcookie3", "content-type", "cache-control", "location",
-               "www-authenticate", "longval", "hop-connection", "hop-keep-alive", "hop-proxy-authenticate", "hop-upgrade", "etag", "vary"},
+               "www-authenticate", "longval", "hop-connection", "hop-keep-alive", "hop-proxy-authenticate", "hop-upgrade", "etag", "vary",
+               "date", "server", "link", "via", "age", "emptyval", "mixedcase"},
   h2      |-> {"none", "custom", "setcookie2", "hop-keep-alive", "content-encoding", "x-frame-options"},
   framing |-> {"length", "chunked", "close"},
   body    |-> {"empty", "len1", "one1-then-rest", "single-small", "single-4096", "multi", "len-32769", "len-100k", "big"},
